@@ -206,22 +206,59 @@ pub fn drive(args: &HashMap<String, String>) {
     let mut g = Gen::new(rand_chacha::ChaCha8Rng::seed_from_u64(seed), o.clone());
     let strict = ["s21", "cl23", "cl231", "cl24"];
     let all = ["cl21", "s21", "cl23", "cl231", "cl24"];
-    let mut jobs = vec![];
-    let mut meta = vec![];
+    // screening: a generated program whose own compilation does not finish within 10 s under some dialect says
+    // nothing about name checking and would cost minutes per injected variant; it is left out (and counted)
+    let mut progs = vec![];
     for i in 0..n {
         g.o = o.clone();
         if i % 2 == 0 {
             g.o.depth = 2;
         }
-        let p = g.program();
-        for d in inject(&p, &mut rng) {
+        progs.push(g.program());
+    }
+    let mut screen = vec![];
+    let mut owner = vec![];
+    for (i, p) in progs.iter().enumerate() {
+        for b in all.iter() {
+            if crate::p_compile::renderable(p, b) {
+                screen.push(json!({"op": "compile", "text": p.render(crate::p_compile::sigil_of(b)), "optimize": false}));
+                owner.push(i);
+            }
+        }
+    }
+    let quick = PoolCfg { batch: 1, timeout: Duration::from_secs(10), ..PoolCfg::default() };
+    let sres = crate::pool::run_jobs_unconfirmed(screen.clone(), &quick);
+    let mut slow = std::collections::BTreeSet::new();
+    for (k, r) in sres.iter().enumerate() {
+        if r.get("timeout").is_some() && slow.insert(owner[k]) {
+            eprintln!("[drive-scoping] left out (compilation takes more than 10 s): {}", screen[k]["text"].as_str().unwrap_or(""));
+        }
+    }
+    let mut jobs: Vec<Value> = vec![];
+    let mut index_of: HashMap<String, usize> = HashMap::new();
+    let mut job_for = |text: String, jobs: &mut Vec<Value>| -> usize {
+        if let Some(i) = index_of.get(&text) {
+            return *i;
+        }
+        jobs.push(json!({"op": "compile", "text": text.clone(), "optimize": false}));
+        index_of.insert(text, jobs.len() - 1);
+        jobs.len() - 1
+    };
+    let mut meta = vec![];
+    let mut slots = vec![];
+    for (i, p) in progs.iter().enumerate() {
+        if slow.contains(&i) {
+            continue;
+        }
+        for d in inject(p, &mut rng) {
             let builds: &[&str] = if d.kind == "unbound" { &strict } else { &all };
             for b in builds {
-                if !crate::p_compile::renderable(&d.program, b) || !crate::p_compile::renderable(&p, b) {
+                if !crate::p_compile::renderable(&d.program, b) || !crate::p_compile::renderable(p, b) {
                     continue;
                 }
-                jobs.push(json!({"op": "compile", "text": d.program.render(crate::p_compile::sigil_of(b)), "optimize": false}));
-                jobs.push(json!({"op": "compile", "text": p.render(crate::p_compile::sigil_of(b)), "optimize": false}));
+                let jd = job_for(d.program.render(crate::p_compile::sigil_of(b)), &mut jobs);
+                let jt = job_for(p.render(crate::p_compile::sigil_of(b)), &mut jobs);
+                slots.push((jd, jt));
                 meta.push((d.kind, d.ident.clone(), d.where_.clone(), b.to_string(), d.program.clone(), p.clone()));
             }
         }
@@ -229,10 +266,13 @@ pub fn drive(args: &HashMap<String, String>) {
     let cfg = PoolCfg { batch: 1, timeout: Duration::from_secs(20), ..PoolCfg::default() };
     let results = run_jobs(jobs, &cfg);
     let mut rep = Report::default();
+    for _ in 0..slow.len() {
+        rep.count("left_out_slow_compilation");
+    }
     let mut tf = std::io::BufWriter::new(std::fs::File::create(trace).expect("trace"));
     let mut cf = std::io::BufWriter::new(std::fs::File::create(cases).expect("cases"));
     for (i, (kind, ident, where_, b, dp, tp)) in meta.iter().enumerate() {
-        let (rd, rt) = (&results[2 * i], &results[2 * i + 1]);
+        let (rd, rt) = (&results[slots[i].0], &results[slots[i].1]);
         rep.evaluations += 1;
         rep.traces += 1;
         rep.nontrivial(&format!("{}|{}|{}", kind, b, dp.render("")));
